@@ -32,6 +32,21 @@ def hasInfix (p : List Char) : List Char → Bool
 
 def contains (s p : String) : Bool := hasInfix p.toList s.toList
 
+/-- Identity of a hostname *as a DNS name*: DNS names are compared ASCII-case-insensitively (RFC 4343),
+so `Shop.customer.org` and `shop.customer.org` are one name. `fold` is its canonical spelling
+(`Char.toLower` touches `A`..`Z` only). -/
+def fold (s : String) : String := String.ofList (s.toList.map Char.toLower)
+
+/-- two spellings of one DNS name -/
+def sameName (x y : String) : Bool := fold x == fold y
+
+/-- The code itself never folds case: `strings.Contains`, `CustomHostnameKey` (the KV key of a binding),
+`ClientHostnamesPrefix` children and the proof-of-work subject are all byte-exact. It relies on
+`acme.Normalize` returning the canonical spelling only (its last step rejects everything outside
+`[a-z0-9-.]`, so a returned name has no upper-case letter). `canonical` is that postcondition; it is an
+explicit hypothesis of the `*_any_spelling` theorems and is checked on every harness line. -/
+def canonical (s : String) : Bool := fold s == s
+
 /-- `strings.Count(s, ".")` -/
 def dots (s : String) : Nat := s.toList.count '.'
 
